@@ -260,7 +260,7 @@ func checkC13(c *Ctx) {
 				}
 				p, isParam := bo.X.(*ssa.Parameter)
 				k, isConst := constIntOf(bo.Y)
-				if !isParam || !isConst || k != 0 || p.Name() != "depth" {
+				if !isParam || !isConst || k != 0 || !isDepthParam(p) {
 					return false, false
 				}
 				return true, bo.Op == token.EQL
@@ -404,7 +404,7 @@ func checkC13(c *Ctx) {
 				why := ""
 				hasDepth := false
 				for _, p := range g.Params {
-					if p.Name() == "depth" {
+					if isDepthParam(p) {
 						hasDepth = true
 					}
 				}
@@ -497,7 +497,7 @@ func checkC13(c *Ctx) {
 				}
 				p, isParam := bo.X.(*ssa.Parameter)
 				k, isConst := constIntOf(bo.Y)
-				if !isParam || !isConst || k != 0 || p.Name() != "depth" {
+				if !isParam || !isConst || k != 0 || !isDepthParam(p) {
 					return false, false
 				}
 				return true, bo.Op == token.NEQ
@@ -1288,6 +1288,46 @@ func resultComparedWithGlobal(call ssa.Value, global string) bool {
 	return false
 }
 
+// isDepthParam: an int parameter that the routine hands down to the routines it
+// calls, as it is or incremented by a constant -- the nesting depth of the
+// recursive-descent parser (whatever it is called).
+func isDepthParam(p *ssa.Parameter) bool {
+	b, ok := p.Type().Underlying().(*types.Basic)
+	if !ok || b.Kind() != types.Int || p.Referrers() == nil {
+		return false
+	}
+	handed := func(v ssa.Value) bool {
+		if v.Referrers() == nil {
+			return false
+		}
+		for _, r := range *v.Referrers() {
+			if ci, ok := r.(ssa.CallInstruction); ok {
+				g := ci.Common().StaticCallee()
+				if g == nil || fnPkgPath(g) != zygoPath {
+					continue
+				}
+				for _, a := range ci.Common().Args {
+					if a == v {
+						return true
+					}
+				}
+			}
+		}
+		return false
+	}
+	if handed(p) {
+		return true
+	}
+	for _, r := range *p.Referrers() {
+		if bo, ok := r.(*ssa.BinOp); ok && bo.Op == token.ADD && bo.X == ssa.Value(p) {
+			if _, isK := constIntOf(bo.Y); isK && handed(bo) {
+				return true
+			}
+		}
+	}
+	return false
+}
+
 func atDepthZeroSite(site ssa.CallInstruction) bool {
 	return guardedBy(site.Block(), func(cond ssa.Value) (bool, bool) {
 		bo, ok := cond.(*ssa.BinOp)
@@ -1296,7 +1336,7 @@ func atDepthZeroSite(site ssa.CallInstruction) bool {
 		}
 		p, isParam := bo.X.(*ssa.Parameter)
 		k, isConst := constIntOf(bo.Y)
-		if !isParam || !isConst || k != 0 || p.Name() != "depth" {
+		if !isParam || !isConst || k != 0 || !isDepthParam(p) {
 			return false, false
 		}
 		return true, bo.Op == token.EQL
